@@ -2,7 +2,8 @@
 import numpy as np
 from hypothesis import strategies as st
 
-from .. import conv, gen, mdeck as md, mgeom, mrender as mr, semcheck, t4eval
+from .. import (conv, gen, layouts, mdeck as md, mgeom, mrender as mr,
+                semcheck, t4eval)
 from ..runner import ok, violation, case_sig
 
 PID = 'C02'
@@ -43,7 +44,13 @@ def card_case(draw, tier='quick'):
     crowd = draw(st.sampled_from([None, None, 'before', 'after']))
     if crowd:
         labels = list(labels) + ['crowded:' + crowd]
+    # the numbers of the card in one of the spellings MCNP reads (Fortran
+    # reals: 2.5+1, -2.5d0, .5, 5., 1E+00): the surface is the same
+    spell = draw(st.sampled_from([None, None, None] + list(range(1, 40))))
+    if spell is not None:
+        labels = list(labels) + ['spelled-numbers']
     return {'kind': k, 'params': p, 'sid': sid, 'labels': sorted(labels),
+            'spell': spell,
             'pseed': draw(st.integers(0, 2 ** 31 - 1)), 'gen': kind,
             'tier': tier, 'crowd': crowd}
 
@@ -58,10 +65,41 @@ def budget(tier):
     return {'max_examples': 160000, 'shards': 16, 'time_budget': 1500}
 
 
+def spell_params(params, k):
+    """Other spellings of the same numbers (checked to denote exactly the
+    same value by the harness' own reader of MCNP reals)."""
+    out = []
+    for q, v in enumerate(params):
+        text = mr.fnum(v)
+        kk = k + q
+        style = kk % 4
+        new = text
+        if style == 1:
+            new = layouts.respell_fortran(text, kk // 4)
+        elif style == 2:
+            new = layouts.respell_python(text, kk // 4)
+        elif style == 3 and v != 0:
+            mant, _, exp = ('%.16e' % float(v)).partition('e')
+            mant = mant.rstrip('0')
+            if mant.endswith('.') and (kk // 4) % 2:
+                mant += '0'
+            new = mant + '%+d' % int(exp)
+        try:
+            if layouts.parse_real(new) != float(v):
+                new = text
+        except ValueError:
+            new = text
+        out.append(new)
+    return out
+
+
 def build_deck(case):
     d = md.new_deck()
     sid = case['sid']
     d['surfaces'].append(md.surf(sid, case['kind'], case['params']))
+    if case.get('spell') is not None:
+        d['surfaces'][0]['spelled'] = spell_params(case['params'],
+                                                   case['spell'])
     crowd = case.get('crowd')
     if crowd:
         # a far-away sphere: cell 2 excludes it, cell 3 is its inside
